@@ -12,10 +12,10 @@
 (***************************************************************************)
 EXTENDS Naturals, Sequences, TLC
 
-CONSTANTS MaxLen
+CONSTANTS MaxLen, Alphabet
 
 AT == 1  LB == 2  RB == 3  NM == 4  X == 5
-Alphabet == {AT, LB, RB, NM, X}
+ASSUME Alphabet \subseteq {AT, LB, RB, NM, X}
 
 VARIABLE src
 Init == src = <<>>
